@@ -4,7 +4,7 @@
 Require Extraction.
 Require ExtrOcamlBasic.
 From Coq Require Import ZArith String List.
-From LW Require Import Gen.Consts Base.Bytes Base.Sweep Model.Epoch Model.TagName Spec.Numbers Model.TagIter Spec.TagSpec Model.Tags Model.CRC Spec.CRCSpec Model.SecStr Spec.SecStrSpec Gen.Tables Model.Radiotap Model.Frame Spec.FrameSpec Model.Macro Spec.CapSpec.
+From LW Require Import Gen.Consts Base.Bytes Base.Sweep Model.Epoch Model.TagName Spec.Numbers Model.TagIter Spec.TagSpec Model.Tags Model.CRC Spec.CRCSpec Model.SecStr Spec.SecStrSpec Gen.Tables Model.Radiotap Model.Frame Spec.FrameSpec Model.Macro Spec.CapSpec Model.RadiotapGen Spec.RadiotapSpec Spec.RadiotapGenSpec Model.Eapol Spec.EapolSpec.
 Extraction Language OCaml.
 Set Extraction KeepSingleton.
 Extraction "model.ml"
@@ -20,4 +20,6 @@ Extraction "model.ml"
   sec_table_pairwise_ciphers sec_none_pairwise_ciphers sec_table_auth_key_suites sec_none_auth_key_suites
   parse_radiotap_info parse_radiotap_rssi rt_init rt_next
   get_wifi_frame parse_data spec_classify spec_data
-  check_cap_eval lookup_enum shapes ieee_cap_bits.
+  check_cap_eval lookup_enum shapes ieee_cap_bits
+  create_radiotap s_render s_restrict carriedb s_info s_wf1b
+  check_wpa_handshake check_wpa_message get_wpa_key_data_length get_wpa_data s_is_handshake s_message s_wpa_data be16.
